@@ -1014,7 +1014,7 @@ func callBuiltin(caller *frame, callpos token.Pos, fn *ssa.Builtin, args []value
 		return nil
 
 	case "close": // close(chan T)
-		close(args[0].(chan value))
+		chanClose(caller, args[0])
 		return nil
 
 	case "delete": // delete(map[K]value, K)
@@ -1058,7 +1058,7 @@ func callBuiltin(caller *frame, callpos token.Pos, fn *ssa.Builtin, args []value
 		case *gomap:
 			return x.len()
 		case chan value:
-			return len(x)
+			return chanLen(caller, x)
 		default:
 			panic(fmt.Sprintf("len: illegal operand: %T", x))
 		}
@@ -1072,7 +1072,7 @@ func callBuiltin(caller *frame, callpos token.Pos, fn *ssa.Builtin, args []value
 		case []value:
 			return cap(x)
 		case chan value:
-			return cap(x)
+			return chanCap(caller, x)
 		default:
 			panic(fmt.Sprintf("cap: illegal operand: %T", x))
 		}
